@@ -121,7 +121,7 @@ def replay_tree(case):
 def structured_leg(ctx: Ctx, family: str):
     out = workdir("c19") / f"trees-{family}.ndjson"
     out.unlink(missing_ok=True)
-    cfg = f"SPECIFICATION Spec\nCONSTANTS\n  Emit = TRUE\n  Family = \"{family}\"\nINVARIANT Laws\nINVARIANT EmitCase\n"
+    cfg = f"SPECIFICATION Spec\nCONSTANTS\n  Emit = TRUE\n  Family = \"{family}\"\n  Variant = \"code\"\nINVARIANT Laws\nINVARIANT EmitCase\n"
     r = run_tlc("MC_Structured", cfg, tag="c19", env={"OUT_FILE": str(out)}, timeout=3000)
     if r.violated:
         ctx.model_violation(r, "MC_Structured laws")
@@ -129,6 +129,12 @@ def structured_leg(ctx: Ctx, family: str):
     cases = read_emitted(out)
     if len(cases) != r.distinct:
         raise MachineryError(f"emission incomplete: {len(cases)} of {r.distinct}")
+    # the simplification laws are not vacuous on the family: TLC refutes the design in which the wrapper-stripping loop of _simplify
+    # keeps testing the object it started from (it then walks through the root of a Structured that has other keys / a tuple root)
+    v = run_tlc("MC_Structured", cfg.replace('Variant = "code"', 'Variant = "outer"').replace("Emit = TRUE", "Emit = FALSE"), tag="c19", timeout=3000)
+    if "Laws" not in v.violated:
+        raise MachineryError("MC_Structured variant outer does not violate the simplification laws: the family holds no wrapped structure")
+    ctx.notes["structured_variant_outer"] = "violates " + ",".join(v.violated)
     res = pmap("harness.props.c19", "replay_tree", cases, chunk=200)
     for c, bad in zip(cases, res):
         ctx.traces += 1
